@@ -51,3 +51,21 @@ Definition crc32_tbl (msg : list byte) : Z := Z.lxor (fold_left tbl_byte msg 429
 
 (* last n elements *)
 Definition lastn {A} (n : nat) (l : list A) : list A := skipn (length l - n) l.
+
+(* ---------- corruption of a frame in transit (statement vocabulary for error detection) ---------- *)
+(* the received frame: sent frame xor error pattern, octet by octet *)
+Definition xor_bytes (a b : list byte) : list byte :=
+  map (fun p => Z.lxor (fst p) (snd p)) (combine a b).
+(* an error pattern, as the bit stream in transmission order (each octet least significant bit first):
+   zeros, then a window of at most 32 bits that starts with a 1, then zeros *)
+Definition burst32 (e : list bool) : Prop :=
+  exists i w j, e = repeat false i ++ (true :: w) ++ repeat false j /\ (length w < 32)%nat.
+(* a frame that carries its own FCS: at least four octets, the last four are the FCS of the rest *)
+Definition valid_frame (f : list byte) : Prop :=
+  4 <= zlen f /\ lastn 4 f = fcs_octets (firstn (length f - 4) f).
+(* the error pattern of one flipped bit: n octets, all zero except bit b of octet k *)
+Definition single_bit_error (n k b : nat) : list byte :=
+  repeat 0 k ++ 2 ^ Z.of_nat b :: repeat 0 (n - k - 1).
+(* the frame with bit b of octet k inverted *)
+Definition flip_bit (f : list byte) (k b : nat) : list byte :=
+  firstn k f ++ Z.lxor (nth k f 0) (2 ^ Z.of_nat b) :: skipn (S k) f.
